@@ -469,7 +469,7 @@ impl OpsWorld {
     }
 
     /// Expected rendering of a completion of `kind`.
-    fn render(kind: Kind, nth: usize, out: &OutRec) -> String {
+    pub fn render(kind: Kind, nth: usize, out: &OutRec) -> String {
         use Kind::*;
         if out.res < 0 {
             return format!("err:{}", -out.res);
